@@ -462,6 +462,53 @@ theorem asCode_total (p : Prog) (h : ∀ n ∈ p.inputs, n ≠ "ops" ∧ n ≠ "
       List.length_nil] at hp
     omega
 
+/-! ## printed op parameters denote the same op -/
+
+/-- **Printed ops round-trip**: evaluating the expression `_print_op` prints rebuilds the same parameter
+    record, for every op class and every parameter values. -/
+theorem printOp_roundtrip (o : OpInst) (h : o.WF) : parsePrinted o.cls (printOp o) = some o := by
+  obtain ⟨c, vals⟩ := o
+  simp only [OpInst.WF] at h
+  simp only [printOp]
+  split
+  · simp [parsePrinted, h]
+  · rename_i hn
+    simp only [parsePrinted]
+    by_cases hp : c.params = []
+    · have : vals = [] := by
+        apply List.eq_nil_of_length_eq_zero; rw [h, hp]; rfl
+      simp [hp, this]
+    · have : vals = c.params.map (·.2) := by
+        by_cases hv : vals = c.params.map (·.2)
+        · exact hv
+        · exact absurd ⟨hp, hv⟩ hn
+      rw [this]
+
+def clampClass : OpClass := ⟨"ClampOp", [("min", "None"), ("max", "None")]⟩
+def stdClass : OpClass := ⟨"StdOp", [("axis", "None"), ("ddof", "0"), ("keepdims", "False")]⟩
+
+/-- **Witness for the positional-omission scheme** (seeded defect C18_1): printing only the non-default
+    values shifts a later parameter into an earlier slot — `ClampOp(None, 0.25)` is read back as
+    `ClampOp(0.25, None)` (a lower instead of an upper bound), `StdOp(None, 1, False)` as
+    `StdOp(1, 0, False)` (axis 1, ddof 0) — while the scheme in the code reads both back unchanged. -/
+theorem printOmit_witness :
+    parsePrinted clampClass (printOmit ⟨clampClass, ["None", "0.25"]⟩) = some ⟨clampClass, ["0.25", "None"]⟩ ∧
+    parsePrinted stdClass (printOmit ⟨stdClass, ["None", "1", "False"]⟩) = some ⟨stdClass, ["1", "0", "False"]⟩ ∧
+    parsePrinted clampClass (printOp ⟨clampClass, ["None", "0.25"]⟩) = some ⟨clampClass, ["None", "0.25"]⟩ ∧
+    parsePrinted stdClass (printOp ⟨stdClass, ["None", "1", "False"]⟩) = some ⟨stdClass, ["None", "1", "False"]⟩ := by
+  decide
+
+/-- The omission scheme is right exactly when the non-default values form a prefix (only leading
+    parameters changed): stated for the direction the seeded defect needs — a default value followed by a
+    non-default one is read back wrongly. -/
+theorem printOmit_wrong_of_gap (c : OpClass) (n1 n2 d1 d2 v2 : String) (hc : c.params = [(n1, d1), (n2, d2)])
+    (hv : v2 ≠ d2) (hd : d1 ≠ v2) : parsePrinted c (printOmit ⟨c, [d1, v2]⟩) ≠ some ⟨c, [d1, v2]⟩ := by
+  simp only [printOmit, hc, List.map_cons, List.map_nil, ne_eq, reduceCtorEq, not_false_eq_true, true_and]
+  have h1 : ([d1, v2] : List String) ≠ [d1, d2] := by simp [hv]
+  simp only [h1, not_false_eq_true, if_true, List.zip_cons_cons, List.zip_nil_right, List.filterMap_cons,
+    if_true, hv, if_false, List.filterMap_nil]
+  simp [parsePrinted, hc, hd.symm]
+
 /-- **Witness for commit e099338.**  With the fixed prefix `v` (the code before that commit) an input
     called `v0` is overwritten by the first temporary: for `v0 + 1` the printed function computes
     `c + c` (here 2 instead of 6), while the program computes `v0 + c`. -/
